@@ -12,7 +12,9 @@ RULE = ("Hypothesis: register size N in 3..8, m in 2..min(6,N) measured qubits g
         "full_state_tomography_circuits and stabilizer_measurement_circuit are exercised, in reduced and in full-register "
         "mode. A case is one (state, list, configuration). Non-trivial = the reduced state on the list differs (> 1e-3 in some "
         "Pauli expectation) from the reduced state on the mirrored list {N-1-q} AND on the sorted list, as measured by the "
-        "oracle, so the case can tell the candidates apart; distinct by (N, list, connectivity, state). Oracle: partial trace "
+        "oracle, so the case can tell the candidates apart; the list is handed over as plain ints (5/8), numpy integers, or with "
+        "all/some indices counted from the end (q-N; today the library accepts these -- a clean IndexError/ValueError/TypeError/"
+        "CircuitError refusal is counted as 'rejected', never as a violation, but a silently wrong answer is one); distinct by (N, list, connectivity, state). Oracle: partial trace "
         "of the dense state in list order; identities off the list in full mode; density matrices in little-endian order.")
 ASSUMPTIONS = ["dense simulator and partial trace (self-tested)", "lists of plain integer qubit indices (Qubit objects raise TypeError before and after the fix and are outside the generator)"]
 BUDGET = {"quick": 400, "thorough": 3000}
@@ -49,6 +51,8 @@ def check_subset(case):
     psi = tomo.state_tensor(N, case["state_ops"])
     rng = fw.rng_for("c11z", case.get("zero_seed", 0))
     label = f"{m}-{name} on qubits {qubits} of {N}"
+    if case.get("index_form", "plain") != "plain":
+        label += f" (handed over as {hand_over(qubits, N, case['index_form'], case.get('zero_seed', 0))}, {case['index_form']})"
     kp = f"{m}/{name}"
     fails = []
     rho = dense.reduced_density(psi, qubits)
@@ -56,9 +60,12 @@ def check_subset(case):
     want_full = {embed(k, qubits): v for k, v in want_red.items()}
     info = {"want_red": want_red}
     prep = libif.build_circuit(N, tomo.ops_tuple(case["state_ops"]))
+    form = case.get("index_form", "plain")
+    handed = hand_over(qubits, N, form, case.get("zero_seed", 0))
+    rejectable = form.startswith("negative")     # from-the-end indices are accepted by the library today; a clean refusal would also be fine
     # ---- full state tomography of the subset
     try:
-        ql = tuple(qubits) if case.get("zero_seed", 0) % 3 == 0 else list(qubits)      # sequence type must not matter
+        ql = tuple(handed) if case.get("zero_seed", 0) % 3 == 0 else list(handed)      # sequence type must not matter
         circs = L.tomo.full_state_tomography_circuits(prep, name, ql)
         counts = [tomo.rescale_counts(tomo.exact_counts([(1.0, dense.run(tomo.measurement_ops(qc), N))], N, rng), case.get("zero_seed", 0) + i) for i, qc in enumerate(circs)]
         fitter = L.tomo.FullStateTomographyFitter(tomo.FakeResult(counts), circs)
@@ -84,13 +91,16 @@ def check_subset(case):
     except dense.UnknownGate as e:
         raise fw.HarnessError(f"uninterpretable gate {e}")
     except Exception as e:  # noqa: BLE001
-        fails.append((f"{kp}/tomography-raised:{type(e).__name__}", f"{label}: tomography pipeline raised {type(e).__name__}({e})", {}))
+        if rejectable and isinstance(e, (IndexError, ValueError, TypeError, KeyError)) or type(e).__name__ == "CircuitError" and rejectable:
+            info["rejected"] = True
+        else:
+            fails.append((f"{kp}/tomography-raised:{type(e).__name__}", f"{label}: tomography pipeline raised {type(e).__name__}({e})", {}))
     # ---- stabilizer measurement on the subset
     if case.get("strings"):
         gens = [pauli.parse(s)[:3] for s in case["strings"]]
         try:
             stab = sweep.make_stabilizer(m, gens, "strings+sign")
-            qc = L.tomo.stabilizer_measurement_circuit(prep, stab, name, list(qubits))
+            qc = L.tomo.stabilizer_measurement_circuit(prep, stab, name, list(handed))
             counts = tomo.exact_counts([(1.0, dense.run(tomo.measurement_ops(qc), N))], N, rng)
             fit = L.tomo.StabilizerMeasurementFitter(tomo.FakeResult([counts]), qc)
             e_red, p1 = tomo.convert_expectations(fit.expectation_values(full_hilbert_space=False))
@@ -101,8 +111,25 @@ def check_subset(case):
             compare(e_red, w_red, m, "stabilizer measurement(reduced)", label, fails, kp)
             compare(e_full, w_full, N, "stabilizer measurement(full register)", label, fails, kp)
         except Exception as e:  # noqa: BLE001
+            if rejectable and (isinstance(e, (IndexError, ValueError, TypeError, KeyError)) or type(e).__name__ == "CircuitError"):
+                info["rejected"] = True
+                return fails, info
             fails.append((f"{kp}/stabmeas-raised:{type(e).__name__}", f"{label}: stabilizer measurement pipeline raised {type(e).__name__}({e})", {}))
     return fails, info
+
+
+def hand_over(qubits, N, form, salt):
+    """the same ordered list written differently: plain ints, numpy integers, or (some / all) indices counted from the end"""
+    if form == "numpy":
+        return [np.int64(q) for q in qubits]
+    if form == "negative-all":
+        return [q - N for q in qubits]
+    if form == "negative-some":
+        out = [q - N if ((salt >> i) & 1) else q for i, q in enumerate(qubits)]
+        if all(v >= 0 for v in out):
+            out[-1] -= N
+        return out
+    return list(qubits)
 
 
 def list_shape(qubits, N):
@@ -141,7 +168,8 @@ def strategy():
         qubits = list(draw(st.permutations(list(range(N)))))[:m]
         gens, orbit, _ = draw(hyp.member_gens(m))
         return {"N": N, "m": m, "connectivity": name, "qubits": qubits, "state_ops": draw(tomo.state_ops_strategy(N, max_len=12)),
-                "strings": sweep.strings(gens, m), "zero_seed": draw(st.integers(0, 10 ** 6))}
+                "strings": sweep.strings(gens, m), "zero_seed": draw(st.integers(0, 10 ** 6)),
+                "index_form": draw(st.sampled_from(["plain"] * 5 + ["numpy", "negative-all", "negative-some"]))}
     return cases()
 
 
@@ -161,7 +189,7 @@ def classify_h(case):
     if case["m"] <= 4 or True:
         if distinguishing(case, info["want_red"]):
             nt = (case["N"], tuple(case["qubits"]), case["connectivity"], repr(case["state_ops"]))
-    return nt, {"list_shape": list_shape(case["qubits"], case["N"]), "N": case["N"], "m_config": f"{case['m']}-{case['connectivity']}"}
+    return nt, {"list_shape": list_shape(case["qubits"], case["N"]), "N": case["N"], "index_form": case.get("index_form", "plain") + ("(rejected)" if info.get("rejected") else ""), "m_config": f"{case['m']}-{case['connectivity']}"}
 
 
 def shard(arg):
